@@ -111,6 +111,8 @@ def injections(root: I.El, spec: G.ModelSpec) -> list[tuple]:
             tkey = next((t[2:] for t in f.tags if t.startswith("t:")), None)
             if tkey in CORRUPTIBLE and "tokens" not in f.tags and f.cat in ("element", "attribute") and "samename" not in f.tags:
                 out.append(("corrupt", f.name))
+                if not tkey.startswith("bytes"):
+                    out.append(("corrupt", f.name, " "))   # a blank is not a value of these types either (it is the empty binary value)
     return out
 
 
@@ -136,24 +138,25 @@ def inject(root: I.El, inj: tuple, spec: G.ModelSpec):
             return None, None
         e.attrs.append(attr)
         return r, {"kind": "attribute", "shape": name, "xsi": is_xsi}
-    _, fname = inj
+    fname = inj[1]
+    raw = inj[2] if len(inj) > 2 else "not-a-value!"
     f = next(x for x in spec.fields if x.name == fname)
     names = field_names(f)
     done = 0
     if f.cat == "attribute":
         for j, (k, v) in enumerate(r.attrs):
             if k.split(":")[-1] in names and not k.startswith("xsi:"):
-                r.attrs[j] = (k, "not-a-value!")
+                r.attrs[j] = (k, raw)
                 done += 1
     else:
         for c in r.kids:
             if isinstance(c, I.El) and c.local in names and len(c.kids) == 1 and isinstance(c.kids[0], str):
-                c.kids[0] = "not-a-value!"
+                c.kids[0] = raw
                 done += 1
                 break
     if done != 1:
         return None, None
-    return r, {"kind": "corrupt", "field": fname}
+    return r, {"kind": "corrupt", "field": fname, "raw": raw}
 
 
 def replace_leaf(obj, fname, raw):
@@ -258,7 +261,7 @@ def h_xml(ch: Chooser, vec: list, maxf: int):
                         again = call(XmlParser(context=ctx, config=cfg, handler=handler).from_string, doc, model.root)
                     if again[0] == "exc" or not [w for w in wl2 if issubclass(w.category, ConverterWarning)]:
                         return bad("no-ConverterWarning", f"second parse of the same document in this process: got {again[1]!r} without a warning")
-                    exp = replace_leaf(base[1], info["field"], "not-a-value!")
+                    exp = replace_leaf(base[1], info["field"], info.get("raw", "not-a-value!"))
                     if not same(got[1], exp):
                         return bad("value-not-kept-as-given", f"{diff(exp, got[1])}")
         return dict(ok=True, case=case, obs=f"{info['kind']}", nontrivial=h((doc, fi)) if k else None, counters={"inj:" + info["kind"]: 1})
@@ -287,7 +290,7 @@ def h_dict(ch: Chooser, vec: list, maxf: int):
         corrupt = [f for f in spec.fields if next((t[2:] for t in f.tags if t.startswith("t:")), None) in ("int", "bool", "float", "Decimal", "XmlDate", "Num")
                    and "tokens" not in f.tags and "list" not in f.tags and f.cat in ("element", "attribute") and not spec.elem_gen and not spec.attr_gen
                    and not f.meta.get("name") and "wrapper" not in f.tags]
-        kinds += [f"corrupt:{f.name}" for f in corrupt]
+        kinds += [f"corrupt:{f.name}" for f in corrupt] + [f"corrupt:{f.name}:blank" for f in corrupt]
         kind = ch.pick(kinds, "injection")
         fi = ch.choose(len(FLAGS), "flags", free=True)
         fup, fua, fcw = FLAGS[fi]
@@ -310,7 +313,8 @@ def h_dict(ch: Chooser, vec: list, maxf: int):
             fname = kind.split(":")[1]
             if fname not in d2 or d2[fname] is None:
                 return {"skip": True, "reason": "nothing to corrupt"}
-            d2[fname] = "not-a-value!"
+            raw = " " if kind.endswith(":blank") else "not-a-value!"
+            d2[fname] = raw
         case = {"model": model.source.split("XmlTime\n", 1)[-1].strip(), "instance": model.instance_source(exprs), "data": repr(d2), "injection": kind,
                 "flags": {"fail_on_unknown_properties": fup, "fail_on_unknown_attributes": fua, "fail_on_converter_warnings": fcw}}
         for route in ("dict", "json"):
@@ -353,12 +357,70 @@ def h_dict(ch: Chooser, vec: list, maxf: int):
                         call(DictDecoder(context=ctx, config=cfg).decode, d2, model.root)
                     if not [w for w in wl2 if issubclass(w.category, ConverterWarning)]:
                         return bad("no-ConverterWarning", f"second decode of the same data in this process gave no warning: {got[1]!r}")
-                    exp = replace_leaf(obj, fname, "not-a-value!")
+                    exp = replace_leaf(obj, fname, raw)
                     if not same(got[1], exp):
                         return bad("value-not-kept-as-given", diff(exp, got[1]))
         return dict(ok=True, case=case, obs=kind.split(":")[0], nontrivial=h((repr(d2), fi)) if kind != "none" else None)
     finally:
         model.release()
+
+
+RW_ELEMENTS = [("urn:x", "zz"), ("urn:t", "zz"), (None, "zz"), ("urn:y", "other")]
+RW_ATTRS = [("urn:attr", "k"), ("urn:x", "k"), (None, "k")]
+
+
+@harness("c10.restricted-wildcards")
+def h_restricted(ch: Chooser):
+    """One name, two fields: an open wildcard / attribute map inside <open> and namespace-restricted ones on the root.  Whether an
+    injected element or attribute is unknown depends on where it stands; the reference is the documented namespace constraint."""
+    from ..models import shared as M
+    fup, fua = ch.flag("fail_on_unknown_properties", free=True), ch.flag("fail_on_unknown_attributes", free=True)
+    # up to two injected elements and two injected attributes, each at the root or under <open>
+    n_el = ch.choose(3, "injected-elements", free=True)
+    els = [(RW_ELEMENTS[ch.choose(len(RW_ELEMENTS), f"el{i}.name", free=True)], ch.pick(["open", "root"], f"el{i}.where", free=True)) for i in range(n_el)]
+    n_at = ch.choose(2, "injected-attributes", free=True)
+    ats = [(RW_ATTRS[ch.choose(len(RW_ATTRS), f"at{i}.name", free=True)], ch.pick(["open", "root"], f"at{i}.where", free=True)) for i in range(n_at)]
+    root = I.El("t:restricted", nsdecls={"t": "urn:t", "x": "urn:x", "y": "urn:y", "a": "urn:attr"})
+    opn = I.El("t:open")
+    root.kids.append(opn)
+    pfx = {"urn:x": "x", "urn:t": "t", "urn:y": "y", "urn:attr": "a"}
+    for (ns, name), where in els:
+        (opn if where == "open" else root).kids.append(I.El(f"{pfx[ns]}:{name}" if ns else name, kids=["v"]))
+    for (ns, name), where in ats:
+        tgt = opn if where == "open" else root
+        q = f"{pfx[ns]}:{name}" if ns else name
+        if any(a[0] == q for a in tgt.attrs):
+            return {"skip": True, "reason": "same attribute twice"}
+        tgt.attrs.append((q, "av"))
+    doc = root.write()
+    # reference (docs/models/fields.md): ##other admits "any namespace other than the parent's namespace" -- unqualified names included,
+    # as everywhere else in the checks; the attribute map admits urn:attr only
+    unknown_el = [(ns, name) for (ns, name), where in els if where == "root" and ns == "urn:t"]
+    unknown_at = [(ns, name) for (ns, name), where in ats if where == "root" and ns != "urn:attr"]
+    case = {"document": doc, "flags": {"fail_on_unknown_properties": fup, "fail_on_unknown_attributes": fua}}
+    cfg = ParserConfig(fail_on_unknown_properties=fup, fail_on_unknown_attributes=fua)
+    for hname, handler in HANDLERS:
+        got = call(XmlParser(context=XmlContext(), config=cfg, handler=handler).from_string, doc, M.Restricted)
+        must_fail = (fup and unknown_el) or (fua and unknown_at)
+        c = {**case, "handler": hname}
+        if must_fail:
+            if not (got[0] == "exc" and isinstance(got[1], ParserError)):
+                return dict(ok=False, case=c, bucket=f"restricted-wildcards/strict-did-not-raise-ParserError/{hname}", detail=f"unknown here: {unknown_el + unknown_at}; got {got[1]!r}\n{doc}")
+            continue
+        if got[0] == "exc":
+            return dict(ok=False, case=c, bucket=f"restricted-wildcards/lenient-or-known-raised/{hname}", detail=f"{got[1]!r}\n{doc}")
+        obj = got[1]
+        want_other = [(f"{{{ns}}}{name}" if ns else name) for (ns, name), where in els if where == "root" and ns != "urn:t"]
+        want_open = [(f"{{{ns}}}{name}" if ns else name) for (ns, name), where in els if where == "open"]
+        got_other = [getattr(x, "qname", None) for x in obj.other]
+        got_open = [getattr(x, "qname", None) for x in (obj.open.any if obj.open else [])]
+        want_oattrs = sorted(f"{{{ns}}}{name}" for (ns, name), where in ats if where == "root" and ns == "urn:attr")
+        want_open_attrs = sorted((f"{{{ns}}}{name}" if ns else name) for (ns, name), where in ats if where == "open")
+        if (got_other, got_open, sorted(obj.oattrs), sorted(obj.open.attrs if obj.open else [])) != (want_other, want_open, want_oattrs, want_open_attrs):
+            return dict(ok=False, case=c, bucket=f"restricted-wildcards/content-in-the-wrong-field/{hname}",
+                        detail=f"other {got_other} (want {want_other}), open.any {got_open} (want {want_open}), oattrs {sorted(obj.oattrs)} (want {want_oattrs}), "
+                               f"open.attrs {sorted(obj.open.attrs if obj.open else [])} (want {want_open_attrs})\n{doc}")
+    return dict(ok=True, case=case, obs="restricted", nontrivial=h(doc), counters={"inj:restricted-wildcards": 1})
 
 
 def run(tier: str, seed: int) -> int:
@@ -380,11 +442,15 @@ def run(tier: str, seed: int) -> int:
     for v in vecs:
         tasks.append(("c10.xml", dict(vec=v, maxf=maxf), 1, ()))
         tasks.append(("c10.dict", dict(vec=v, maxf=maxf), 1, ()))
-    stats = parallel(tasks, explore_task, chunk=4)
+    from ..engine import explore_task_split, split_first
+    tasks.extend(split_first(("c10.restricted-wildcards", {}, None, ())))
+    stats = parallel(tasks, explore_task_split, chunk=4)
     confirm_violations(stats)
     return finish(
         PROP, tier, seed, "exploration", stats, t0,
-        rule=(f"{len(vecs)} G-model models without generic content x (default instance or one value deviation, or one injection): unknown elements of 6 shapes (empty, text, containing a "
+        rule=("a model with an open wildcard / attribute map under <open> and namespace-restricted ones (##other, one uri) on the root x every document with <= 2 injected elements "
+              "(4 names) and <= 1 injected attribute (3 names), each at the root or under <open>, x 4 flag combinations x both handlers, judged by the documented namespace constraints; "
+              f"{len(vecs)} G-model models without generic content x (default instance or one value deviation, or one injection): unknown elements of 6 shapes (empty, text, containing a "
               "name known elsewhere in the model, 3-deep subtree, foreign namespace, xsi:type'd) at every child slot of every class-bound element; unknown attributes of 4 kinds (plain, "
               "namespaced, xsi:schemaLocation, arbitrary xsi:*) on every class-bound element; every typed leaf corrupted -- each x all 8 combinations of fail_on_unknown_properties / "
               "fail_on_unknown_attributes / fail_on_converter_warnings (free dimension) x both handlers; dictionary and JSON input with unknown keys (scalar, object, array) and uncastable values."),
